@@ -9,6 +9,11 @@ What runs against the real code ($VERIF_REPO):
      core.compile_template and tracing.trace_origin are replaced by recording caches; after EVERY call of
      generated histories every cached object is compared with a fresh computation, and every call's result
      is compared with the result of the same call in a fresh process (fork of a pristine zygote).
+  3. (round 5) state audit: every module-level mutable object of every pyrefact module is digested in the fresh
+     process, after every history and after clearing every lru cache; what changed must be allow-listed with its
+     invariant (corpus/c05/module_state.json); containers keyed by id(...) are never accepted;
+  4. (round 5) histories on the REAL caches without recorders (mode 'bare': evicted trees really are freed) that end
+     with never-seen probe inputs; the registry core._REBOUND_NAMES vs AuxStateModel (WeakSet design).
 A cache entry that differs from a fresh computation, or a result that differs from the fresh-process result,
 is a violation of C05 with a concrete failing history."""
 from __future__ import annotations
